@@ -16,6 +16,11 @@
 //  3. a read-only call returns what the same call returns on a twin base with
 //     identical content, driven directly (handles: a twin handle opened by the
 //     mirrored call).
+//
+// The base does not stay what it was: the alphabet also holds base-side letters
+// (baseside.go), changes made directly on the base and on the twin, each of
+// which asks every pooled object every tree-reading question before and again
+// after the change; oracle 3 means what the base returns NOW.
 package main
 
 import (
@@ -47,6 +52,12 @@ func newSys(name, tier string) (*sys, []string, map[string]any) {
 	)
 
 	s.ops, bad, info = buildOps(name, tier)
+
+	for i := range s.ops {
+		if isProbe(s.ops[i], tier) {
+			s.probes = append(s.probes, i)
+		}
+	}
 
 	return s, bad, info
 }
@@ -263,6 +274,7 @@ func main() {
 
 	// ---- aggregate
 	states, steps, executed, skipped := 0, 0, 0, 0
+	baseSteps, questions := 0, 0 // base-side steps executed; questions asked before and again after the change, summed over them
 	outcomes := map[string]int{}
 	exh := true
 	depthDone := d
@@ -281,6 +293,15 @@ func main() {
 			}
 
 			executed += n
+
+			// a base-side step reports how many questions it asked around the change
+			if i := strings.Index(k, " questions="); i >= 0 {
+				q, _ := strconv.Atoi(k[i+len(" questions="):])
+				k = k[:i]
+				baseSteps += n
+				questions += q * n
+			}
+
 			outcomes[k] += n
 		}
 
@@ -386,16 +407,19 @@ func main() {
 		Coverage: map[string]any{
 			"states": states, "transitions": executed, "traces_validated_against_impl": executed,
 			"evaluations": executed, "distinct_nontrivial": len(outcomes),
-			"rule": "every history of length <= bound over the static alphabet (every avfs.VFS method on the RoFS and on a pooled Sub file system, every avfs.File method on two pooled handle slots; methods enumerated by reflection, small argument domain per parameter) executed on a fresh real RoFS over a real base with a twin base as reference; " +
+			"rule": "every history of length <= bound over the static alphabet (every avfs.VFS method on the RoFS and on a pooled Sub file system, every avfs.File method on two pooled handle slots; methods enumerated by reflection, small argument domain per parameter; plus the base-side letters: a handful of changes made directly on the base and identically on the twin, not through the wrapper - a file with a second link grows, shrinks, changes mode, is renamed, loses a link, a directory appears in a listed directory; thorough: also mtime, a file losing its last name, a new file, a directory renamed or removed with its content, a file of the second volume) executed on a fresh real RoFS over a real base with a twin base as reference; " +
+				"a base-side letter asks every pooled object (the RoFS, the pooled Sub file system, the pooled handles) every question of the alphabet that reads the tree and does not move its receiver (file system: Stat, Lstat, ReadDir, ReadFile, Readlink, EvalSymlinks over the path domain, thorough: also Glob and WalkDir; handle: Stat, Name, ReadAt; per system: alphabet.<system>.questions_asked_around_a_base_side_letter) BEFORE the change and again AFTER it: after the change every answer must equal the answer of the twin, the FileInfo/DirEntry values handed out before the change must say what the twin's say, and the questions must leave the base as the change left it; " +
 				"bases: MemFS and OrefaFS, each Linux-typed and Windows-typed (<kind>@Windows; same tree on volume C:, paths spelled with volume and backslashes, plus a rooted path without volume; the Windows-typed MemFS holds a second volume D: with a directory and a file, which are operands of every path method, of Sub, WalkDir, Glob, Rel, SameFile and of the second operand of Link/Rename/Symlink); " +
-				"transitions = calls actually executed (alphabet operations whose receiver slot is empty are skipped and counted apart); distinct_nontrivial = distinct (object kind, method, outcome class) triples observed",
+				"transitions = calls actually executed (alphabet operations whose receiver slot is empty are skipped and counted apart; a base-side step counts once, its questions (each asked before and again after the change) are counted in base_side_questions); distinct_nontrivial = distinct (object kind, method, outcome class) triples observed",
 			"samples":                samples,
 			"exhaustive":             exh,
-			"bound":                  fmt.Sprintf("histories of length <= %d (completed %d)", d, depthDone),
+			"bound":                  fmt.Sprintf("histories of length <= %d (completed %d); a base-side letter may stand at every position of a history", d, depthDone),
 			"systems":                all,
 			"alphabet":               alphaInfo,
 			"steps_including_skips":  steps,
 			"skipped_empty_receiver": skipped,
+			"base_side_steps":        baseSteps,
+			"base_side_questions":    questions,
 			"mutating_calls_refused_with_permission_error":          refused,
 			"of_which_windows_typed_chown_lchown_symlink_os_answer": refusedOS,
 			"view_state_changes_recorded":                           viewChanges,
@@ -413,7 +437,8 @@ func main() {
 			"view state of the base that the statement does not list (cwd, umask, user, identity manager) is recorded (view_state_changes_recorded) and is not a violation; a view-state call that returns nil is mirrored on the twin, one that returns an error is assumed to have had no effect",
 			"OpenFile with O_EXCL but without O_CREATE and without any write/append/truncate flag is unspecified: only the base snapshot and the absence of a panic are checked; Sub, Type, Features, HasFeature, Idm, Fd are not compared with the base (different by design)",
 			"mutating calls are never executed on the twin; objects handed out by a mutating call that was not refused have no twin and only oracles 1 and 2 apply to them",
-			"after a change of the base the state is not expanded further",
+			"after a change of the base that came about through the wrapper (or through a question asked around a base-side letter) the state is not expanded further; after a base-side letter the search goes on, and the snapshot the following calls are held against is the one taken after it",
+			"base-side letters are applied to the base and to the twin by the same call, as administrator, with absolute operands; both must answer alike and their snapshots must be equal afterwards (anything else is a harness error, never a verdict). The clock of both instances is the wall clock: every node whose modification time moved is given fsx.FixedTime+60s on both sides before anything is compared, so a stale modification time is told from a live one, but the time a change leaves behind is not itself observed. The questions around a base-side letter are asked on the transition being explored, not again each time lib/bfs re-executes the history to rebuild the state; what the questions answer BEFORE the change is compared by the ordinary steps of the same operations in the same state",
 			"random part of temp names is supplied by the harness (deterministic)",
 			"base and twin are built by the same deterministic steps; their dumps are compared after the first construction in every process (and with the full public-API dump by the parent), not after every construction. Without a time budget (quick tier) the four explorations run side by side, each with its own workers",
 		},
